@@ -99,7 +99,8 @@ func HarnessC07_required() {
 	upper := map[string]any{}
 	ovA := ndChoice(2) == 1
 	ovB := ndChoice(2) == 1
-	ovL := ndChoice(2) == 1
+	ovLkind := ndChoice(4) // 0 untouched, 1 append a value, 2 append a marker, 3 append both
+	ovL := ovLkind != 0
 	other := ndChoice(2) == 1
 	if ovA {
 		upper["a"] = ndScalarNN()
@@ -109,8 +110,13 @@ func HarnessC07_required() {
 	} else if other {
 		upper["m"] = map[string]any{"d": 7} // mentions the map, not the marker
 	}
-	if ovL {
+	switch ovLkind {
+	case 1:
 		upper["l"] = []any{3}
+	case 2:
+		upper["l"] = []any{"$required"}
+	case 3:
+		upper["l"] = []any{3, "$required"}
 	}
 	vObserve("base", base)
 	vObserve("upper", upper)
@@ -121,7 +127,8 @@ func HarnessC07_required() {
 	} else {
 		outs, err = c06Eval(vCopy(base), vCopy(upper))
 	}
-	remaining := (r1 == "$required" && !ovA) || (r2 == "$required" && !ovB) || (r3 == "$required" && !ovL)
+	// a marker the upper layer itself appends is unsatisfied as well
+	remaining := (r1 == "$required" && !ovA) || (r2 == "$required" && !ovB) || (r3 == "$required" && !ovL) || ovLkind >= 2
 	if a, isStr := upper["a"].(string); isStr && r1 == "s0" && a == "s0" {
 		// the upper layer repeats the lower value: a useless override, rejected for that reason
 		vAssert("C07.useless", err != nil)
